@@ -640,6 +640,9 @@ pub fn run_check<P: Property>(p: &P, opts: &Opts) -> i32 {
             warnings.push(format!("probe {pr} stuck at zero"));
         }
     }
+    if let Some(n) = agg.counters.get("probe.run-skipped-setup-refused-by-device").copied().filter(|n| *n > 0) {
+        warnings.push(format!("{n} runs skipped: the device refused the initial state the harness tried to install"));
+    }
     for w in &warnings {
         println!("warning: {w}");
     }
@@ -762,13 +765,25 @@ impl Agg {
 }
 
 /// Execute a case; a panic that escapes `execute` is a harness error.
+/// marker in the payload of the panic by which a simulator reports that the device refused the run's initial state
+pub const SETUP_REFUSED: &str = "SIM-SETUP-REFUSED";
+
 pub fn guarded_execute<P: Property>(p: &P, case: &P::Case, want_trace: bool) -> Result<Outcome, String> {
     let r = std::panic::catch_unwind(std::panic::AssertUnwindSafe(|| p.execute(case, want_trace)));
     match r {
         Ok(o) => Ok(o),
         Err(payload) => {
             let loc = take_last_panic_location().unwrap_or_default();
-            Err(format!("harness panic at {loc}: {}", panic_message(&*payload)))
+            let msg = panic_message(&*payload);
+            if msg.contains(SETUP_REFUSED) {
+                // The device refused an initial state the harness tried to install through the public API (for
+                // instance a stricter deserialiser and a session document the device itself would never write).
+                // No statement obliges it to accept; the run is skipped and counted.
+                let mut stats = RunStats::default();
+                stats.bump("probe.run-skipped-setup-refused-by-device");
+                return Ok(Outcome { violation: None, stats, trace: vec![msg] });
+            }
+            Err(format!("harness panic at {loc}: {msg}"))
         }
     }
 }
